@@ -34,7 +34,14 @@ def run(ctx, model_ok):
                             "np.array(dtype=float) is an assumed external function (Model/Validators.lean header): non-integer floats, inf, strings like '1e3' that "
                             "float() parses, bytes, objects with __float__/__array__, nestings deeper than numpy's axis limit are outside the modelled grammar",
                             "full-strength 'never a foreign error' is false of the faithful model for check_format_input_vector2 (ValueError, pinned by a test): "
-                            "stated as witness vector2_bad_shape_is_foreign and recorded as a known finding; complex scalars were repaired in /repo (scalar_never_foreign)"]
+                            "stated as witness vector2_bad_shape_is_foreign and recorded as a known finding; complex scalars were repaired in /repo (scalar_never_foreign)",
+                            "'documented format' in the *_accepts_iff_documented theorems is Spec/ValidSpec.lean, whose entry grammar (isEntry) follows np.array(dtype=float): a None entry (stored "
+                            "as nan, passing the 'no value <= 0' test) and numeric strings count as documented there although the docstrings speak of numbers only "
+                            "(theorem documented_includes_coerced_entries; known findings coerced-entry:None / coerced-entry:numeric-string)",
+                            "constructor path = setter path (constructors assign through the same setters: valid stream only), and 'no accepted object later fails inside a field computation "
+                            "with an internal error' (check_dimensions / check_excitations, nan dimensions reaching the kernels): oracle only",
+                            "rejected-assignment theorems are about setters of the form validate-then-assign (setAttrWith); that every real setter has this form is regenerated for Sensor.pixel / "
+                            "Sensor.handedness (Attr.skeleton) and observed for the others by the valid stream's state comparison (BaseMagnet.polarization also writes _magnetization)"]
 
 
 def replay(ctx, payload):
